@@ -16,7 +16,11 @@
 (*     and NaN for the rounding functions;                                    *)
 (*   - a table of exact special values of the transcendental functions;       *)
 (*   - errors for units that the function cannot take and for incompatible    *)
-(*     units in clamp / atan2 / hypot.                                        *)
+(*     units in atan2 / hypot;                                                *)
+(*   - the global (CSS calculation) forms abs / round / min / max / clamp      *)
+(*     agree with the module functions; clamp(MIN, VAL, MAX) is                *)
+(*     max(MIN, min(VAL, MAX)) for every ordering (MIN > MAX: MIN wins);       *)
+(*     CSS mod(), rem() and round(<strategy>, A, B) with unit conversion.      *)
 (* NOT claimed: the numeric accuracy of sqrt/pow/log/exp/sin/cos/tan/asin/    *)
 (* acos/atan/atan2/hypot on arguments outside the table (TLA+ has no reals). *)
 (* Not constrained (Undef): unitless mixed with units in min/max/clamp,       *)
@@ -43,11 +47,11 @@ Less(a, b) == a.n * b.d < b.n * a.d            \* a, b "num" with small terms
 
 ---------------------------------------------------------------------------
 (* units *)
-Lengths == {"px", "in"}
+Lengths == {"px", "in", "cm"}
 Angles  == {"deg", "turn", "grad", "rad"}
 Compatible(u, v) == u = v \/ (u \in Lengths /\ v \in Lengths) \/ (u \in Angles /\ v \in Angles)
 (* exact factor to the base unit of the class (px, deg); rad has none: handled separately *)
-Factor(u) == CASE u = "in" -> <<96, 1>> [] u = "turn" -> <<360, 1>> [] u = "grad" -> <<9, 10>> [] OTHER -> <<1, 1>>
+Factor(u) == CASE u = "in" -> <<96, 1>> [] u = "cm" -> <<4800, 127>> [] u = "turn" -> <<360, 1>> [] u = "grad" -> <<9, 10>> [] OTHER -> <<1, 1>>
 (* a in the base unit of its class, as a "num" with the same unit tag *)
 ToBase(a) == Num(a.n * Factor(a.u)[1], a.d * Factor(a.u)[2], a.u)
 Convertible(a, b) == Compatible(a.u, b.u) /\ a.u # "rad" /\ b.u # "rad"
@@ -100,7 +104,8 @@ Clamp(lo, x, hi) ==
   ELSE LET l == ToBase(lo)
            v == ToBase(x)
            h == ToBase(hi) IN
-       IF Less(h, l) THEN Undef                     \* min > max: not specified
+       (* CSS: clamp(MIN, VAL, MAX) = max(MIN, min(VAL, MAX)): when MIN > MAX the lower bound wins *)
+       IF Less(h, l) THEN lo
        ELSE IF Less(v, l) THEN lo
        ELSE IF Less(h, v) THEN hi
        ELSE IF (~Less(l, v) /\ lo # x) \/ (~Less(v, h) /\ hi # x) THEN Undef       \* tie between different arguments
@@ -196,7 +201,52 @@ Hypot(a, b) ==
        IF r = {} THEN Undef ELSE Num(CHOOSE i \in r : TRUE, 1, a.u)
 
 ---------------------------------------------------------------------------
-(* the function table *)
+(* CSS mod(), rem() and round(<strategy>, A, B): the second argument is converted into the unit of   *)
+(* the first, the result has the unit of the first.                                                    *)
+(*   mod(A, B) = A - B * floor(A / B)   (sign of B)     rem(A, B) = A - B * trunc(A / B)   (sign of A)  *)
+(*   round(up | down | to-zero | nearest, A, B): the multiple of B next to A in that direction; only  *)
+(*   B > 0 is constrained, and for `nearest` a tie is not (CSS rounds it up, Sass away from zero).    *)
+(* k * (B in the unit of A), as n/d:  B * Factor(B.u) / Factor(A.u)                                    *)
+Trunc(n, d) == IF n >= 0 THEN n \div d ELSE -((-n) \div d)
+StepOp(fn, a, b) ==
+  IF ~IsNum(a) \/ ~IsNum(b) THEN Undef
+  ELSE IF (a.u = "") # (b.u = "") THEN Undef
+  ELSE IF ~Convertible(a, b) THEN Undef             \* error or unsimplified calculation: both acceptable
+  ELSE IF b.n = 0 THEN Undef
+  ELSE IF fn \notin {"mod", "rem"} /\ b.n < 0 THEN Undef
+  ELSE LET fa == Factor(a.u)
+           fb == Factor(b.u)
+           (* B in the unit of A *)
+           bn == b.n * fb[1] * fa[2]
+           bd == b.d * fb[2] * fa[1]
+           (* A / B = (a.n * bd) / (a.d * bn) with a positive denominator *)
+           sg == IF bn < 0 THEN -1 ELSE 1
+           qn == sg * a.n * bd
+           qd == sg * a.d * bn
+           fl == FloorDiv(qn, qd)
+           ce == -FloorDiv(-qn, qd)
+           tie == 2 * (qn - fl * qd) = qd
+           k  == CASE fn = "mod" -> fl
+                   [] fn = "rem" -> Trunc(qn, qd)
+                   [] fn = "round_up" -> ce
+                   [] fn = "round_down" -> fl
+                   [] fn = "round_to_zero" -> Trunc(qn, qd)
+                   [] OTHER -> IF 2 * (qn - fl * qd) < qd THEN fl ELSE ce
+           multiple == Num(k * bn, bd, a.u) IN
+       (* A is a whole multiple of B but B has to be converted into the unit of A: every result function here is  *)
+       (* discontinuous at exactly this point and the converted B is not a binary fraction, so 0 and +-B are both    *)
+       (* correctly rounded answers - not constrained                                                                 *)
+       IF a.u # b.u /\ qn % qd = 0 THEN Undef
+       ELSE IF fn \in {"round_nearest", "round_step"} /\ tie THEN Undef
+       ELSE IF fn \in {"mod", "rem"} THEN Num(a.n * multiple.d - multiple.n * a.d, a.d * multiple.d, a.u)
+       ELSE multiple
+
+StepFns == {"mod", "rem", "round_up", "round_down", "round_to_zero", "round_nearest", "round_step"}
+
+---------------------------------------------------------------------------
+(* the function table.  ns = "math": the sass:math module function; ns = "css": the global           *)
+(* (CSS calculation) function of the same name, which must agree wherever both are constrained.       *)
+CssFns == {"abs", "round", "min", "max", "clamp"} \cup StepFns
 Apply(fn, args) ==
   CASE fn \in {"abs", "ceil", "floor", "round"} -> Round1(fn, args[1])
     [] fn = "percentage" -> Percentage(args[1])
@@ -211,6 +261,7 @@ Apply(fn, args) ==
     [] fn = "log" -> (IF Len(args) = 1 THEN Ln(args[1]) ELSE Log(args[1], args[2]))
     [] fn = "exp" -> Exp(args[1])
     [] fn = "hypot" -> Hypot(args[1], args[2])
+    [] fn \in StepFns -> StepOp(fn, args[1], args[2])
 
 (* The observable: [k, neg, ip, fp, u] with the value split into sign, integer part and the      *)
 (* fraction in micro-units (rounded half up); fp = 1000000 never occurs (carried into ip).       *)
@@ -232,7 +283,8 @@ Obs(v) ==
            fp2 == IF fp = 1000000 THEN 0 ELSE fp IN
        [k |-> "num", neg |-> IF v.n < 0 /\ (ip2 > 0 \/ fp2 > 0) THEN 1 ELSE 0, ip |-> ip2, fp |-> fp2, u |-> v.u]
 
-Expect(fn, args) == Obs(Apply(fn, args))
+Expect(ns, fn, args) ==
+  IF (ns = "css" /\ fn \notin CssFns) \/ (ns = "math" /\ fn \in StepFns) THEN Obs(Undef) ELSE Obs(Apply(fn, args))
 
 ---------------------------------------------------------------------------
 (* laws of the model *)
@@ -246,6 +298,30 @@ RoundLaws(a) ==
     /\ ~Less(r, f) /\ ~Less(c, r) /\ ~Less(a, f) /\ ~Less(c, a)
     /\ c.n - f.n \in {0, 1}
     /\ Round1("round", Num(-a.n, a.d, a.u)) = Num(-r.n, r.d, r.u)          \* symmetric: ties away from zero
+(* mod / rem: |result| < |B|, mod has the sign of B, rem the sign of A; stepped round: the result differs from A *)
+(* by less than |B| in the direction of the strategy                                                            *)
+StepLaws(fn, a, b) ==
+  LET r == StepOp(fn, a, b) IN
+  r.k = "num" =>
+    LET fa == Factor(a.u)
+        fb == Factor(b.u)
+        bn == Abs(b.n) * fb[1] * fa[2]
+        bd == b.d * fb[2] * fa[1]
+        dn == Abs(a.n * r.d - r.n * a.d)          \* |A - r| = dn / (a.d * r.d)
+        dd == a.d * r.d IN
+    /\ r.u = a.u
+    /\ (fn \notin {"mod", "rem"} => dn * bd < bn * dd)                 \* |A - r| < |B|
+    /\ (fn \in {"mod", "rem"} => Abs(r.n) * bd < bn * r.d)              \* |r| < |B|
+    /\ (fn = "mod" => r.n = 0 \/ (r.n > 0) = (b.n > 0))
+    /\ (fn = "rem" => r.n = 0 \/ (r.n > 0) = (a.n > 0))
+    /\ (fn = "round_up" => r.n * a.d >= a.n * r.d) /\ (fn = "round_down" => r.n * a.d <= a.n * r.d)
+    /\ (fn = "round_to_zero" => Abs(r.n) * a.d <= Abs(a.n) * r.d)
+(* clamp(a, v, b) = max(a, min(v, b)) whenever all three are decided *)
+ClampLaw(args) ==
+  LET c == Clamp(args[1], args[2], args[3])
+      m == Extreme("min", <<args[2], args[3]>>)
+      x == IF m.k = "num" THEN Extreme("max", <<args[1], m>>) ELSE Undef IN
+  (c.k = "num" /\ x.k = "num") => ~Less(ToBase(c), ToBase(x)) /\ ~Less(ToBase(x), ToBase(c))
 (* min/max/clamp return one of their arguments *)
 SelectLaws(fn, args) ==
   LET v == Apply(fn, args) IN v.k = "num" => \E i \in DOMAIN args : args[i] = v
